@@ -173,7 +173,7 @@ func c14Run(c fw.Case, env *fw.Env) fw.Result {
 	case "random":
 		rng := env.Rng(c)
 		lv := []string{"", "a", "b", "ab", "é", "日本", "+", "#", "a+", "#b", "x y", "+/", "0"}
-		tl := []string{"", "a", "b", "ab", "é", "日本", "x y", "0", "c"}
+		tl := []string{"", "a", "b", "ab", "é", "日本", "x y", "0", "c", "$d", "a$"}
 		for i := 0; i < p.N; i++ {
 			f := randLevels(rng, lv, 1+rng.Intn(8))
 			t := randLevels(rng, tl, 1+rng.Intn(8))
@@ -212,7 +212,7 @@ func c14Run(c fw.Case, env *fw.Env) fw.Result {
 		// interleaved Handle / Serve operations on one mux against a reference list
 		rng := env.Rng(c)
 		lv := []string{"a", "b", "+", "#", "", "a+"}
-		tl := []string{"a", "b", "", "c"}
+		tl := []string{"a", "b", "", "c", "$s"}
 		for i := 0; i < p.N; i++ {
 			var m mqtt.ServeMux
 			var reg []string // registered (valid) filters in order
@@ -220,6 +220,11 @@ func c14Run(c fw.Case, env *fw.Env) fw.Result {
 			nops := 2 + rng.Intn(14)
 			var ops []string
 			topics := []string{randLevels(rng, tl, 1+rng.Intn(3)), randLevels(rng, tl, 1+rng.Intn(3))}
+			for ti := range topics {
+				if strings.HasPrefix(topics[ti], "$") {
+					topics[ti] = "a/" + topics[ti] // topics starting with '$' are outside the property; '$' deeper down is ordinary
+				}
+			}
 			for o := 0; o < nops; o++ {
 				if rng.Intn(2) == 0 {
 					f := randLevels(rng, lv, 1+rng.Intn(3))
